@@ -333,7 +333,8 @@ func (e *Exec) streamRun(fr *Frame, st *BState, x *ssa.Call) SV {
 		writeKeys(mf, seen, keys)
 	}
 	var havocd []string
-	for k, h := range st.heap {
+	for _, k := range sortedHeapKeys(st.heap) {
+		h := st.heap[k]
 		for pre := range keys {
 			if strings.HasPrefix(k, pre) {
 				st.heap[k] = e.havocHeapKey(k, h, "stream.")
@@ -354,7 +355,7 @@ func (e *Exec) streamRun(fr *Frame, st *BState, x *ssa.Call) SV {
 	if mf != nil {
 		assignedCells(mf, map[*ssa.Function]bool{}, cbCells)
 	}
-	for a := range cbCells {
+	for _, a := range sortedAllocs(cbCells) {
 		if _, ok := st.cells[a]; ok {
 			nv := e.freshSV(a.Type().(*types.Pointer).Elem(), "stream."+a.Comment, st.reach, false)
 			e.saneInput(st, a.Type().(*types.Pointer).Elem(), nv, tTrue)
@@ -385,7 +386,7 @@ func (e *Exec) streamRun(fr *Frame, st *BState, x *ssa.Call) SV {
 		ln := st.ghost[g].(*SliceV).Len
 		e.assume(mk(SBool, "forall", mk("binder", "(("+bv.Op+" Int))"), and(le(n, ln), le(app(SInt, "-", ln), n))))
 	}
-	for k := range st.ghost {
+	for _, k := range sortedGhostKeys(st.ghost) {
 		if strings.HasPrefix(k, "$calls.") || strings.HasPrefix(k, "$callsAtMeta.") || k == "$outAtMeta" {
 			st.ghost[k] = intSV(e.fresh("stream."+k, SInt))
 		}
